@@ -1058,7 +1058,6 @@ func paramIndex(fn *ssa.Function, v ssa.Value) int {
 	return -1
 }
 
-
 // c09ThroughAggregate: the data or the offset of a write derives from a field of a struct other than the table and
 // partition types (an element of a table of regions), i.e. it passed through a container.
 func c09ThroughAggregate(w *World, data, off ssa.Value, env map[ssa.Value][]ssa.Value) bool {
@@ -1075,7 +1074,6 @@ func c09ThroughAggregate(w *World, data, off ssa.Value, env map[ssa.Value][]ssa.
 	}
 	return false
 }
-
 
 // tableLoops finds, in fn, calls of a relevant in-module function made once per element of a slice of structs that fn
 // itself builds from composite literals (make + append, or a slice literal): `for _, r := range regions { r.write(f) }`.
